@@ -10,9 +10,12 @@ def repo_fix_and_hook_commits():
     return hooks
 
 CHECKS = {
+ 'C13': dict(level='fault_enumeration', design='6 C13', technique='deterministic simulation with fault injection on stored data: independent re-implementation of the documented sealing (M-seal) opens everything that leaves the host; every stored value is then corrupted (all single-byte modifications, all truncations, swaps, re-sealing under other secret/salt/version id, replayed HTTP response) and every fetch must fail',
+   text='What the object-store server puts into the store, what the git server writes to files and history, and what the HTTP client sends are opened by an independent implementation of docs/src/encryption.md and must yield the plaintext handed in (format byte, fresh nonces, no plaintext). Each sampled stored value is then attacked exhaustively per byte position and truncation length, plus swapped / foreign-key / other-salt / other-version-id / garbage data and, on HTTP, a full genuine response for another parent; the next get_child_version / get_snapshot must return an error.',
+   note='M-seal uses ring primitives but none of server/encryption.rs. Values and configurations are sampled (each new secret/salt costs a 90 ms key derivation); per attacked value the position sweep is exhaustive in the thorough tier and for a quarter of the values in the quick tier.'),
  'C08': dict(level='exploration', design='6 C08', technique='deterministic simulation (refinement): seeded protocol call sequences through 1-3 handles on each real backend behind a proxy that compares every reply with the reference chain model; handles reopened at seeded points; whole replicas through the backends',
    text='Every reply of the local, object-store and git (local-only / shared remote) servers to add-version, get-child-version, add-snapshot and get-snapshot is compared with the single-copy chain model (acceptance rule, rejection names latest and changes nothing, child versions byte for byte incl. empty / non-UTF-8 / 1MB payloads, unknown parent, snapshots as stored); a fresh handle re-reads the chain at the end; a third of the runs drive whole replicas through the backend and require convergence with the mirror.',
-   note='The HTTP client leg is not part of this check yet (see DESIGN.md section 9); object store in memory via the hook; git uses the real git binary.'),
+   note='The HTTP leg runs the real reqwest client against a harness listener implementing docs/src/http.md on a loopback socket (one request in flight); object store in memory via the hook; git uses the real git binary.'),
  'C11': dict(level='fault_enumeration', design='6 C11', technique='deterministic simulation with fault injection: every internal step of add_version/add_snapshot in the local, object-store and git backends (object-store requests; hook failpoints between database statements, git commands and file writes) interrupted with each fault kind; handles reopened; resync, protocol conformance via the proxy, convergence and bounded liveness',
    text='For each sampled sync through a real backend the backend-internal steps are enumerated by a fault-free run and then interrupted one by one (fail before, done-then-fail, stop); afterwards all handles are reopened, the interrupted replica syncs again and must reach the uninterrupted outcome, every reply is checked against the chain model (an unacknowledged version may only appear in full), and all replicas must converge within the liveness bound.',
    note='Process stop inside the local and git backends is an error return at a hook failpoint (no backend code runs after it); kills inside a running git child are not exercised. One recorded known finding (git with shared remote, stop between commit and push).'),
